@@ -47,8 +47,12 @@ Definition is_value_link (pad : nat) (l : plink) : res bool :=
     else Ok (negb (length n =? pad)%nat)
   end.
 
-Definition name_suffix (pad : nat) (l : plink) : bytes :=
-  match l_name l with Some n => skipn pad n | None => [] end.
+(* name[pad:] — a Go slice expression: panics when the name is shorter than pad (or absent: Must()) *)
+Definition name_suffix (pad : nat) (l : plink) : res bytes :=
+  match l_name l with
+  | Some n => if (length n <? pad)%nat then Panic else Ok (skipn pad n)
+  | None => Panic
+  end.
 
 Section Faults.
   Variable fault : blk -> option err.
@@ -85,7 +89,12 @@ Section Faults.
           match is_value_link (sh_pad sh) l with
           | Err e => (Err e, [])
           | Panic => (Panic, [])
-          | Ok true => if bytes_eqb (name_suffix (sh_pad sh) l) key then (Ok (l_target l), []) else (Err ENotFound, [])
+          | Ok true =>
+            match name_suffix (sh_pad sh) l with       (* MatchKey *)
+            | Ok sfx => if bytes_eqb sfx key then (Ok (l_target l), []) else (Err ENotFound, [])
+            | Err e => (Err e, [])
+            | Panic => (Panic, [])
+            end
           | Ok false =>
             let t := l_target l in
             match fault t with
@@ -112,7 +121,7 @@ Section Faults.
   Definition lookup (root : blk) (hb key : bytes) : res blk * list blk := lookup_blk root None hb key 0.
 
   (* iteration: one event per Next call (a pair or an error), with the blocks requested before it *)
-  Inductive ievent := IYield (k : bytes) (v : blk) | IErr (e : err).
+  Inductive ievent := IYield (k : bytes) (v : blk) | IErr (e : err) | IPanic.
 
   Fixpoint iter_blk (b : blk) (parent_fanout : option N) (root_pad : nat) : list (list blk * ievent) :=
     match mk_shard_of b with
@@ -129,7 +138,9 @@ Section Faults.
              match is_value_link (sh_pad sh) l with
              | Err e => ([], IErr e) :: go r
              | Panic => ([], IErr EOther) :: go r
-             | Ok true => ([], IYield (name_suffix root_pad l) (l_target l)) :: go r
+             | Ok true =>
+               (* transformNameNode strips the ROOT's prefix length *)
+               ([], match name_suffix root_pad l with Ok k => IYield k (l_target l) | Err e => IErr e | Panic => IPanic end) :: go r
              | Ok false =>
                match l with
                | PLink _ _ t =>
